@@ -73,6 +73,26 @@ POOLS = {'equal': lambda: [1, ONE_F, [], []], 'falsy': lambda: [None, 0, False],
          'equal+': lambda: [1, ONE_F, True, [], []], 'falsy+': lambda: [None, 0, False, '']}      # thorough
 
 
+def library_markers():
+    """Objects the module under test itself uses as "nothing here" markers, found by introspection: every public or
+    private module-level value of boltons.funcutils that is neither a module, class, callable nor a plain builtin
+    value (today: NO_DEFAULT).  A wrapped function may use any of them as an ordinary default value."""
+    from boltons import funcutils
+    plain = (type(None), bool, int, float, complex, str, bytes, tuple, list, dict, set, frozenset)
+    found = []
+    for key in sorted(vars(funcutils)):
+        v = vars(funcutils)[key]
+        if key.startswith('__') or isinstance(v, plain + (type, type(inspect))) or callable(v):
+            continue
+        if not any(v is x for x in found):
+            found.append(v)
+    return found
+
+
+# both tiers: an ordinary value, the library's own markers, and an interpreter-level marker singleton
+POOLS['library'] = lambda: [7] + library_markers() + [Ellipsis]
+
+
 class Sentinel:
     """Default value that is equal only to itself (a moved or re-created default cannot go unnoticed)."""
 
@@ -397,10 +417,12 @@ def defaults_family(tier):
     specs = []
     for npos in (2, 3) if quick else (2, 3, 4):
         for ndef in range(2, npos + 1):
-            for pool in ('equal', 'falsy') if quick else ('equal+', 'falsy+'):
+            for pool in ('equal', 'falsy', 'library') if quick else ('equal+', 'falsy+', 'library'):
                 size = len(POOLS[pool]())
                 for kwo in ([], [1]):
                     if quick and pool == 'falsy' and kwo:
+                        continue
+                    if quick and pool == 'library' and kwo and npos > 2:
                         continue
                     for vk in (0,) if quick or npos == 4 else (0, 1):
                         for pat in itertools.product(range(size), repeat=ndef):
@@ -1297,8 +1319,9 @@ def run(ctx):
                                                % SECOND_LIMIT,
         'defaults_part': {'functions': len(dflt), 'positional': [2, 3 if ctx.quick() else 4],
                           'defaulted_positional': '2..n_pos',
-                          'pools': {k: repr(v()) for k, v in POOLS.items() if k.endswith('+') != ctx.quick()},
-                          'keyword_only_with_default': '0..1 (quick: pool "falsy" only without)',
+                          'pools': {k: repr(v()) for k, v in POOLS.items() if k.endswith('+') != ctx.quick() or k == 'library'},
+                          'keyword_only_with_default': ('0..1 (quick: pool "falsy" only without, pool "library" with one '
+                                                        'only for 2 positional parameters)'),
                           'var_keyword': [0] if ctx.quick() else '0..1 for <= 3 positional parameters, else 0'}})
     cov['bounds'] = bounds
     ctx.assumptions += [
